@@ -5,7 +5,8 @@
 (*   reset{subject,fam,variant,framing}                                            *)
 (*   history{syncpoints:[{len,h,sync,valid}...]}   logical content after every op  *)
 (*   ( image{kind,k,j,len,upto,f,raw}  reopen{outcome,content,extent}              *)
-(*   | resume{k,open,mode,c0,ids0,new_ids,len0,len1,added,old0,old1,live,again} )* *)
+(*   | resume{k,open,mode,c0,ids0,new_ids,len0,len1,added,old0,old1,live,again}   *)
+(*   | regen{api,cap,truncated,pos,writes,open,got} )*                             *)
 (* outcome = ok | err | signal | timeout | panic; only ok / err have an action.    *)
 EXTENDS DurableFile, TraceIO, Known_DurableFile
 
@@ -25,6 +26,7 @@ Step(e) ==
     \/ e.op = "reopen"  /\ subj.framing = "header" /\ Reopen(e.outcome, e.content, e.extent)
     \/ e.op = "reopen"  /\ subj.framing = "raw"    /\ RawReopen(e.outcome, e.content)
     \/ e.op = "resume"  /\ Resume(e)
+    \/ e.op = "regen"   /\ Regen(e)
 
 TraceNext ==
     /\ l <= Len(Rec)
